@@ -471,12 +471,61 @@ def check_C10(ctx):
             root = gen.mkcmd("app", decls=copy.deepcopy(decls), spec=text, policy=0)
             cases.append({"op": "run", "env": env, "version": None, "root": root, "argv": argv})
         groups.append((start, len(cases)))
+    # small scope: loops over single flags followed / preceded by other options; every way of folding each run of adjacent
+    # flag occurrences into clusters, wherever the run stands on the line
+    sdecls = [gen.mkopt("custom", "v", custom=dict(gen.CUSTOM_FLAG)), gen.mkopt("custom", "w", custom=dict(gen.CUSTOM_FLAG)),
+              gen.mkopt("strings", "f file"), gen.mkarg("strings", "X")]
+
+    def foldings(letters):
+        """all ways of cutting a run of flag letters into clusters"""
+        if not letters:
+            return [[]]
+        out = []
+        for k in range(1, len(letters) + 1):
+            for rest in foldings(letters[k:]):
+                out.append(["-" + "".join(letters[:k])] + rest)
+        return out
+    for sp in ("-v... -f", "-f -v...", "(-v | -w)... -f", "-v... [-f] X", "[-f] -v... -w...", "-w -v... -f", "[OPTIONS]", "-v... -w... [X]"):
+        for fsp in (["-f", "x"], ["--file=x"], ["-fx"], []):
+            for run in (["v"], ["v", "v"], ["v", "v", "v"], ["v", "w", "v"], ["w", "v", "v"], ["v", "v", "v", "v"]):
+                for order in (0, 1, 2):
+                    start = len(cases)
+                    seen = set()
+                    for fo in foldings(run):
+                        if order == 0:
+                            argv = fo + fsp
+                        elif order == 1:
+                            argv = fsp + fo
+                        else:
+                            argv = fo[:1] + fsp + fo[1:]
+                        if tuple(argv) in seen:
+                            continue
+                        seen.add(tuple(argv))
+                        cases.append({"op": "run", "env": {}, "version": None, "root": gen.mkcmd("app", decls=copy.deepcopy(sdecls), spec=sp, policy=0),
+                                      "argv": argv})
+                    if order == 2:
+                        # (moving the valued option between clusters is a swap, not a respelling: compare only among the
+                        # foldings that keep the first occurrence in front of it) — one group per first-cluster length
+                        by_first = {}
+                        for c in cases[start:]:
+                            by_first.setdefault(len(c["argv"][0]), []).append(c)
+                        del cases[start:]
+                        for grp in by_first.values():
+                            s0 = len(cases)
+                            cases.extend(grp)
+                            if len(grp) > 1:
+                                groups.append((s0, len(cases)))
+                    elif len(cases) - start > 1:
+                        groups.append((start, len(cases)))
     res = correspond(ctx, cases, ["outcome", "trace", "values"], "respellings")
     pairs = 0
     for s, e in groups:
         a0, _ = res[cases[s]["id"]]
         for j in range(s + 1, e):
             a1, _ = res[cases[j]["id"]]
+            if "timeout" in (a0["outcome"][0], a1["outcome"][0]):
+                ctx.timeouts += 1       # exponentially ambiguous spec on a rejected line: C03's business, not a difference
+                continue
             pairs += 1
             if diff_obs(a0, a1, ["outcome", "trace", "values"]):
                 ctx.violation("respell", "spec %r: %r and %r differ: %r %r vs %r %r" %
@@ -535,6 +584,9 @@ def check_C11(ctx):
         a0, _ = res[cases[s]["id"]]
         for j in range(s + 1, e):
             a1, _ = res[cases[j]["id"]]
+            if "timeout" in (a0["outcome"][0], a1["outcome"][0]):
+                ctx.timeouts += 1
+                continue
             pairs += 1
             if diff_obs(a0, a1, ["outcome", "trace", "values"]):
                 ctx.violation("swap", "spec %r: %r and %r differ: %r %r vs %r %r" %
@@ -566,6 +618,42 @@ def check_C11(ctx):
             small.append({"op": "run", "env": {}, "version": None, "root": gen.mkcmd("app", decls=copy.deepcopy(sdecls), spec=sp, policy=0),
                           "argv": [t for u in v for t in u[0]]})
         sgroups.append((start, len(small)))
+    # long lines: the same families with 5 to 9 units, so that a folded token stands far from the head of the line
+    for _ in range(ctx.scale(600, 6000)):
+        sp = rng.choice(sspecs + ["-b... -o...", "-o... -a...", "(-a | -o)... -b...", "[OPTIONS]"])
+        ls = [rng.choice(units) for _ in range(rng.randint(5, 9))]
+        # (a rejected line costs the backtracking search a time exponential in the number of occurrences of DIFFERENT
+        # options under an explicit repeated choice: keep these lines below that)
+        while sum(len(u[0][0]) - 1 if u[0][0].startswith("-") else 1 for u in ls) > 11 and len(ls) > 5:
+            ls.pop(rng.randrange(len(ls)))
+        idx = [i for i in range(len(ls) - 1) if not set(ls[i][1]) & set(ls[i + 1][1])]
+        if not idx:
+            continue
+        start = len(small)
+        vs = [list(ls)]
+        for i in rng.sample(idx, min(3, len(idx))):
+            sw = list(ls)
+            sw[i], sw[i + 1] = sw[i + 1], sw[i]
+            vs.append(sw)
+        # and one far move: the last unit brought to the front when it shares no option with the others
+        if all(not set(ls[-1][1]) & set(u[1]) for u in ls[:-1]):
+            vs.append([ls[-1]] + ls[:-1])
+        for v in vs:
+            small.append({"op": "run", "env": {}, "version": None, "root": gen.mkcmd("app", decls=copy.deepcopy(sdecls), spec=sp, policy=0),
+                          "argv": [t for u in v for t in u[0]]})
+        sgroups.append((start, len(small)))
+    # a folded token far from the head of the line: k two-token occurrences of -o before it, and the same cluster moved
+    # to every other position between them
+    for sp in ("-b... -o...", "-o... -b...", "(-b | -o)...", "[OPTIONS]", "-o... -b... [-a]"):
+        for k in (3, 4, 5, 6):
+            for cluster in (["-bb"], ["-bbb"], ["-b", "-bb"], ["-bab"] if "a" in sp or "OPTIONS" in sp else ["-bbbb"]):
+                occs = [["-o", "v%d" % i] for i in range(k)]
+                start = len(small)
+                for pos in range(k, -1, -1):
+                    line = [t for o_ in occs[:pos] for t in o_] + cluster + [t for o_ in occs[pos:] for t in o_]
+                    small.append({"op": "run", "env": {}, "version": None, "root": gen.mkcmd("app", decls=copy.deepcopy(sdecls), spec=sp, policy=0),
+                                  "argv": line})
+                sgroups.append((start, len(small)))
     number(small, start=len(cases))
     res_s = correspond(ctx, small, ["outcome", "trace", "values"], "small scope: folded tokens and loops")
     spairs = 0
@@ -573,6 +661,9 @@ def check_C11(ctx):
         a0, _ = res_s[small[s_]["id"]]
         for j in range(s_ + 1, e_):
             a1, _ = res_s[small[j]["id"]]
+            if "timeout" in (a0["outcome"][0], a1["outcome"][0]):
+                ctx.timeouts += 1
+                continue
             spairs += 1
             if diff_obs(a0, a1, ["outcome", "trace", "values"]):
                 ctx.violation("swap", "spec %r: %r and %r differ: %r %r vs %r %r" %
